@@ -37,6 +37,10 @@ NAMES = ["dp", "mortality", "moves_left", "a_b", "a", "x.y", "gets_disease", "dp
          "with space", "UPPER.Case", "123", "_", "a" * 70]      # legal but unusual names (LESSONS.md 10); 70 chars: two SHA-1 chunks
 AKS = [None, None, None, 0, 5, -3, 17, "x", "a_b", "loc", "sex_choice", "b_5_c", "c", "with space", "",
        {"f": 1.5}, {"f": 0.0}, {"b": True}, {"t": [1, "a"]}, {"np": 1234}, {"ts": "2020-01-01 06:00:00"}]   # any object: float, bool, tuple, numpy int, Timestamp
+# additional keys that compare (and hash) EQUAL but print differently: the seed string is built from str(key), so each member
+# of a family names a different block; a memo keyed by the objects themselves confuses them (seeded C02-3 / C02-4 / C02-5)
+EQ_FAMILIES = [[1, {"b": True}, {"f": 1.0}, {"np": 1}], [0, {"b": False}, {"f": 0.0}, {"np": 0}],
+               [{"t": [1, "a"]}, {"t": [True, "a"]}, {"t": [1.0, "a"]}], [5, {"f": 5.0}, {"np": 5}]]
 FORMS = ["pos", "pos", "kw", "omit", "ppf"]     # get_draw(i, k) / get_draw(index=i, additional_key=k) / get_draw(i) / sample_from_distribution(i, ppf=identity, ..)
 
 
@@ -343,6 +347,10 @@ class C02(Prop):
         fresh = known[:]          # simulant labels available for births in direct mode
         born_this_step = True     # the initial population counts as this step's birth (sim + crn: one birth per step)
         aks = rng.sample(AKS, 3) + [None]
+        family = None
+        if rng.random() < 0.35:      # a third of the cases: the keys in play are one family of equal-but-differently-printed objects
+            family = rng.choice(EQ_FAMILIES)
+            aks = rng.sample(family, min(len(family), 3)) + [rng.choice(AKS)]
         plain = rng.random() < 0.3          # a third of the cases: plain int64 indexes, positional calls only
 
         def opt(ak):
@@ -395,6 +403,12 @@ class C02(Prop):
                 ops.append(["draw", rng.choice([k for k in range(ns) if k != s]), probe, ak])
             elif r < 0.7:
                 ops.append(["draw", s, probe, rng.choice([a for a in AKS if a != ak])])
+            if family and ak in family:
+                # every other member of the family, back to back on the same stream at the same time, then the first again
+                for a2 in family:
+                    if a2 != ak:
+                        ops.append(["draw", s, probe, a2] + opt(a2))
+                ops.append(["draw", s, probe, ak] + opt(ak))
             # time moves on / births
             if rng.random() < 0.8:
                 ops.append(["step"])
